@@ -37,7 +37,7 @@ def main(run: Run):
     run.assumptions += BASE_ASSUMPTIONS_L1
     run.assumptions += ["self and the window argument are distinct objects (a map added to itself is outside the property's domain)",
                         "an object is not both a wiring.Component and a MemoryMap; id() of a new object differs from every registered id",
-                        "pow2 axioms and the power-of-two test are proved in Lean 4/Mathlib (lemmas/*.lean)",
+                        "the quantified pow2 axioms are proved in Lean 4/Mathlib (lemmas/Pow2.lean); `x & (x-1)` is an arbitrary non-negative integer (no bit-level lemma is trusted)",
                         "_Namespace availability is an uninterpreted predicate here (its semantics is property C18)"]
     run.trusted_base += ["pyvc VC generator (vf/pyvc/engine.py)", "z3 5.1 / cvc5 1.0", "Lean 4.33 + Mathlib for the arithmetic lemma library",
                          "CPython cross-check of the engine's path summaries (vf/pyvc/crosscheck.py)"]
@@ -54,6 +54,11 @@ def main(run: Run):
     memtrees.run_bounded(run, "history", run.tier, forced=bool(run.undecided) or any(o.status == "undecided" for o in run.obligations))
     for o in obs[:6]:
         run.sample(f"{o.fn}::{o.clause}::{o.label}")
+    from ..lean_check import status as _lean_status
+    run.extra["lean_lemmas"] = {"files": _lean_status(), "used": "Pow2.lean: pow2_pos, pow2_mono_dvd, align_up_spec, least_multiple_unique, clog2_spec"}
+    for _f, _st in run.extra["lean_lemmas"]["files"].items():
+        if _st != "accepted":
+            run.assumptions.append(f"Lean lemma file {_f} is '{_st}': the SMT axioms it backs are TRUSTED in this run")
     return run.finish(
         explanation="Every function of the allocator is verified against its contract by pyvc: the real source is symbolically "
                     "executed path by path; post-conditions, frame/atomicity conditions, internal asserts and arithmetic side "
